@@ -27,7 +27,9 @@ META = {
             "FILTERPARENT/MIDPHASE/CONTACT/CONSTRAINT disable flags and margin override; contact order repeatability; the oracle and the "
             "broadphase model inputs take weld groups, their parents and dof counts from body_parentid / body_jntnum / mocap, not from the "
             "implementation's body_weldid; dedicated chain scenes put jointless bodies on jointed links and on the world with geoms "
-            "overlapping the weld group one joint up, parent filter on and off). Not covered: flex, "
+            "overlapping the weld group one joint up, parent filter on and off; margin scenes place multi-geom bodies with large margins / gaps "
+            "at surface distances around the sum of the margins - separated but within margin, and just outside - with explicit inertial "
+            "frames; a fixed sweep corpus does the same with two-sphere bodies). Not covered: flex, "
             "mesh/hfield/SDF geoms, sleeping (mjENBL_SLEEP), NaN coordinates, IEEE rounding beyond the monotone-map abstraction.",
     "note": "Trusted: Coq kernel; hand-written model Model/Broadphase.v (arrays as lists, float cast as an abstract monotone map, "
             "C ints as Z); correspondence harness (gcc, driver c14_bp.c which #includes engine_collision_driver.c; Python float32 rounding "
@@ -134,9 +136,11 @@ def parse_scene(lines):
         elif t[0] == "D":
             sc["D"] = (int(t[1]), int(t[2]))
         elif t[0] == "N":
-            sc["N"] = {(int(a), int(b)): int(c) for a, b, c in (p.split(":") for p in t[1:])}
+            sc["N"] = {(int(a), int(b)): int(c) for a, b, c, w in (p.split(":") for p in t[1:])}
+            sc["Nwithin"] = {(int(a), int(b)): int(w) for a, b, c, w in (p.split(":") for p in t[1:])}
         elif t[0] == "NP":
-            sc["NP"] = {int(a): int(b) for a, b in (p.split(":") for p in t[1:])}
+            sc["NP"] = {int(a): int(b) for a, b, w in (p.split(":") for p in t[1:])}
+            sc["NPwithin"] = {int(a): int(w) for a, b, w in (p.split(":") for p in t[1:])}
         elif t[0] == "A":
             nc = int(t[1])
             sc["bfid"] = list(map(int, t[2:2 + nc])) if len(t) > 2 else []
@@ -164,16 +168,25 @@ def sig(b1, b2):
     return (min(b1, b2) << 16) + max(b1, b2)
 
 
-def expected_pairs(sc, dsbl):
-    """documented selection rules + narrow phase, brute force over all geom pairs."""
+def expected_pairs(sc, dsbl, override=False):
+    """documented selection rules + narrow phase, brute force over all geom pairs.  Returns (allowed, info, required):
+    allowed = pairs that pass the filters and for which the narrow phase reports a contact (nothing else may appear);
+    required = those of them whose geoms are within margin + gap also by mj_geomDistance (GJK for box-box / convex pairs): the SAT
+    based box-box collider can report a contact for boxes that are farther apart than the margin, and pruning such a pair is right.
+    Under mjENBL_OVERRIDE only pairs within the (overridden) margin itself are required: the broad phase then inflates the boxes by
+    o_margin / 2 without the geom gaps, so pairs in the gap zone (inactive contacts, dist >= margin) may or may not appear; the
+    property speaks of geoms "within margin"."""
     if dsbl & (DSBL["CONTACT"] | DSBL["CONSTRAINT"]):
-        return set(), {}
+        return set(), {}, set()
     G, B = sc["G"], sc["B"]
     exp = {}
+    required = set()
     explicit = {frozenset((p["g1"], p["g2"])) for p in sc["P"]}
     for k, p in enumerate(sc["P"]):
         if sc["NP"].get(k, 0) > 0:
             exp[frozenset((p["g1"], p["g2"]))] = ("explicit", sc["NP"][k])
+            if sc["NPwithin"].get(k, 0) >= 1:      # explicit pairs are not pruned by the broad phase: margin + gap is required
+                required.add(frozenset((p["g1"], p["g2"])))
     excl = set(sc["X"])
     for (g1, g2), n in sc["N"].items():
         if n <= 0:
@@ -194,7 +207,10 @@ def expected_pairs(sc, dsbl):
         if not ((G[g1]["ct"] & G[g2]["ca"]) or (G[g2]["ct"] & G[g1]["ca"])):
             continue
         exp[key] = ("dynamic", n)
-    return set(exp), exp
+        w = sc["Nwithin"].get((g1, g2), 0)
+        if w == 2 or (w == 1 and not override):
+            required.add(key)
+    return set(exp), exp, required
 
 
 def reject_reason(sc, dsbl, g1, g2):
@@ -309,6 +325,17 @@ def run(ctx):
         vs = [variants[0]] + rng.sample(variants[1:], 2)
         for (ds, en, om) in vs:
             cmds.append(("SCENE", (seed, nb, ds, en, om)))
+    # margin scenes (nb < 0): multi-geom bodies with large margins / gaps placed at surface distances around the sum of the margins
+    # (separated but within margin, and just outside), explicit inertial frames; mid-phase on and off
+    for i in range(70 if quick else 800):
+        seed = rng.randrange(1, 1 << 40)
+        nbm = -rng.choice([2, 3, 4, 6, 8])
+        for (ds, en, om) in (variants[0],) + ((variants[2],) if i % 2 == 0 else ()) + ((variants[6],) if i % 5 == 0 else ()):
+            cmds.append(("SCENE", (seed, nbm, ds, en, om)))
+    # sweep scenes (nb <= -100): fixed corpus of two-sphere bodies at surface distances between the larger margin and the sum of the margins
+    for k in range(8):
+        for (ds, en, om) in (variants[0], variants[2]):
+            cmds.append(("SCENE", (1, -100 - k, ds, en, om)))
     # chain scenes (nb = 0): jointless tool bodies welded to jointed links / to the world, geoms overlapping the weld group one joint up;
     # parent filter on and off
     for i in range(12 if quick else 300):
@@ -361,6 +388,8 @@ def run(ctx):
     fbpx_res = []
     flt_src, add_src, sap_src, bp_src = [], [], [], []
     nscene_pairs = 0
+    nmargin_seen = 0
+    noptional = 0
     nscene_nontriv = 0
     samples = []
     for ci, (c, o) in enumerate(zip(cmds, outs)):
@@ -433,19 +462,26 @@ def run(ctx):
         elif k == "SCENE":
             seed, nb, ds, en, om = p
             sc = parse_scene(o)
-            case = {"op": "scene" if nb > 0 else "chain scene (jointless bodies welded to links / world)", "seed": seed, "nbody": nb,
+            # margin scenes are many and cheap for the oracle; only the first ones also go through the Coq model (cost)
+            if -100 < nb < 0:
+                nmargin_seen += 1
+            model_tie = nb >= 0 or nmargin_seen <= (20 if quick else 300)
+            case = {"op": "scene" if nb > 0 else "chain scene (jointless bodies welded to links / world)" if nb == 0 else
+                    "margin scene (geoms separated but within margin)" if nb > -100 else
+                    "sweep scene %d (two-sphere bodies, surface distance between max and sum of the margins)" % (-nb - 100), "seed": seed, "nbody": nb,
                     "disableflags": ds, "enableflags": en, "o_margin": om}
             if not sc["ok"] or "BF" not in sc:
                 ctx.broken.append(("correspondence", "scene did not run", "%s -> %s" % (text(c), " | ".join(o)[:400]))); continue
             obs = [frozenset(pr) for pr in sc["C"]]
             obs_set = set(obs)
-            exp_set, exp = expected_pairs(sc, ds)
+            exp_set, exp, req_set = expected_pairs(sc, ds, bool(en & ENBL_OVERRIDE))
+            noptional += len(exp_set - req_set)
             nscene_pairs += len(exp_set)
             if len(exp_set) >= 3 and (sc["P"] or sc["X"]) and any(b["geomnum"] > 1 for b in sc["B"]):
                 nscene_nontriv += 1
             if len(samples) < 3 and len(exp_set) >= 3:
                 samples.append(dict(case, ngeom=len(sc["G"]), contact_pairs=len(exp_set)))
-            missing = sorted(tuple(sorted(x)) for x in exp_set - obs_set)
+            missing = sorted(tuple(sorted(x)) for x in req_set - obs_set)
             extra = sorted(tuple(sorted(x)) for x in obs_set - exp_set)
             if missing:
                 cls = "pair_dropped"
@@ -469,7 +505,7 @@ def run(ctx):
                                   theorem="oracle: contact list structure", signature={"site": "mj_collision", "class": "type_order"})
                     break
             if not (missing or extra):
-                for kk in exp_set:
+                for kk in exp_set & obs_set:
                     if obs.count(kk) != exp[kk][1] and not any(frozenset((q["g1"], q["g2"])) == kk for q in sc["P"]):
                         ctx.violation("impl_violation", dict(case, pair=sorted(kk)), expected="%d contacts" % exp[kk][1], observed=obs.count(kk),
                                       theorem="oracle: brute-force all pairs", signature={"site": "mj_collision", "class": "contact_count"})
@@ -487,9 +523,10 @@ def run(ctx):
                 if not ok:
                     ctx.violation("impl_violation", dict(case, boxes=boxes), expected=msg, observed=sc["S"][1], theorem="C14_sap_complete",
                                   signature={"site": "mj_SAP", "class": "wrong_pair_set"})
-                sap_cases.append(sap_lit(0, nc * (nc - 1) // 2, boxes, sc["S"][0], sc["S"][1]))
-                sap_src.append(ci)
-            if ds & (DSBL["CONTACT"] | DSBL["CONSTRAINT"]) == 0 or True:
+                if model_tie:
+                    sap_cases.append(sap_lit(0, nc * (nc - 1) // 2, boxes, sc["S"][0], sc["S"][1]))
+                    sap_src.append(ci)
+            if model_tie:
                 blits = []
                 for bi, b in enumerate(sc["B"]):
                     gs = [(g["ct"], g["ca"]) for g in sc["G"] if g["body"] == bi]
@@ -583,6 +620,7 @@ def run(ctx):
     ctx.cov["exhaustive_part"] = "mj_SAP: all %d sets of 2 or 3 intervals with ends in {0,1,2}" % nexh
     ctx.cov["correspondence_disagreements"] = nfail
     ctx.cov["support"]["scene_contact_pairs_checked"] = nscene_pairs
+    ctx.cov["support"]["pairs_with_narrowphase_contact_but_beyond_margin_by_geomDistance"] = noptional
     ctx.cov["explanation"] = ("filters, add_pair, mj_SAP and mj_broadphase compared exactly with the Coq model on %d + %d + %d + %d cases; "
                               "%d scenes compared with the brute-force oracle" % (len(flt_cases), len(add_cases), len(sap_cases), len(bp_cases),
                                                                                   sum(1 for c in cmds if c[0] == "SCENE")))
